@@ -259,7 +259,12 @@ class C09(Property):
             return run_harness_base(case['edit'])
         if kind == 'ontologies':
             return run_ontologies(case)
-        built = [G.build(kind, s) for s in case['defs']]
+        from edxml.error import EDXMLOntologyValidationError
+        try:
+            built = [G.build(kind, s) for s in case['defs']]
+        except EDXMLOntologyValidationError:
+            # the ontology refuses to hold the generated definition (a prefix radix without a unit, say): no case
+            return {'skipped': True}
         for _o, e in built:
             # a generated definition that is not valid by itself (a time span property that is no datetime, say) is no case:
             # comparing validates its operands
